@@ -255,3 +255,40 @@ Definition prop_createextract (input obs : val) : val :=
       else VL [VT "FAIL"; VT "extracted-tree-differs-from-source";
                VT (if vN (vnth 2 opts) =? 2 then (if vN (vnth 0 opts) =? 2 then "stdin-pipe-carv2" else "stdin-pipe-carv1")
                    else if vN (vnth 2 opts) =? 1 then "stdin-file" else "file")].
+
+(* ---- kind "createextractlarge" (C18, trees too large to push through the list-based fs model) ----
+   input: (utree opts) -- the tree `car create` packs (reference packing), opts = (version no-wrap mode)
+   observation: (status rootinfo n<extracted tree = source tree, compared by the harness> n<source untouched>)
+   The model predicts what C18_extract_reproduces_any_valid_tree says for a valid tree: success,
+   count = uleaves u, the tree reproduced. *)
+Definition run_createextractlarge (input : val) : val :=
+  let u := v_utree (vnth 0 input) in
+  let opts := vnth 1 input in
+  let version := vN (vnth 0 opts) in
+  let mode := vN (vnth 2 opts) in
+  let pathflag := vB (vnth 4 opts) in
+  let opens :=
+    if mode =? 0 then true
+    else stdin_open_ok true (if mode =? 1 then RRegular else RPipe) version in
+  let ri := VL [VN 1; VN 1; VN 1; VN 1] in
+  (* with --path <name>: the selected entry of the root directory *)
+  let sel :=
+    match path_segments pathflag with
+    | Some [] => Some u
+    | Some [m] => match u with UDir es => assoc_u m es | _ => None end
+    | _ => None
+    end in
+  match sel with
+  | Some u' =>
+    if valid_utree u && is_udir u && is_udir u' && opens
+    then VL [xres_v (XOk (uleaves u')); ri; VN 1; VN 1]
+    else VL [VT "not-predicted"]
+  | None => VL [VT "not-predicted"]
+  end.
+
+Definition prop_createextractlarge (input obs : val) : val :=
+  let ri := vnth 1 obs in
+  if negb ((vN (vnth 0 ri) =? 1) && vbool (vnth 1 ri) && vbool (vnth 2 ri) && vbool (vnth 3 ri))
+  then VL [VT "FAIL"; VT "root-is-not-the-single-printed-cid"; VT "create"]
+  else if vbool (vnth 2 obs) && vbool (vnth 3 obs) then VT "ok"
+  else VL [VT "FAIL"; VT "extracted-tree-differs-from-source"; VT "large-tree"].
